@@ -8,7 +8,11 @@ the REAL NMEASentenceFactory.produce (and a shadow TagBlockQueue when a tbq is a
 the model's inputs, the extracted stream_step/queue_step run on them, and the deliveries (every attribute, as text tokens),
 the escaping exception class and -- for NMEAQueue -- the final buffer and pending wrapper are compared with the real reader.
 
-Oracles (property vs implementation) use the extracted Spec/AssembleSpec.v on the harness's own knowledge of the lines."""
+Oracles (property vs implementation) use the extracted Spec/AssembleSpec.v on the harness's own knowledge of the lines.
+
+Backpressure (section "bounded NMEAQueue"): the same lines into NMEAQueue(maxsize=k) with non-blocking puts and a consumer that
+takes items at given moments; correspondence with the extracted queue_step_b (asm_run_b), oracle from Proofs/AssembleBounded.v:
+what comes out is what the unbounded reference delivers at the lines whose put was accepted, queue.Full exactly at the others."""
 import io
 import itertools
 import os
@@ -888,6 +892,16 @@ def oracle_decode(seq, res, name):
 # queue.Full is raised exactly at the others where a message is due, nothing is left behind in the slot table.
 
 BOUNDED = 'NMEAQueue/bounded'
+RULE_BOUNDED = ('; wherever NMEAQueue is among the front-ends the same lines also go into NMEAQueue(maxsize=k), k in 1..3, with '
+                'put_line(line, block=False) (one run in ten: block=True with a 0.2 ms timeout), queue.Full caught per line and the line '
+                'NOT offered again, and a consumer that calls get_or_none() at given moments: k = 1 with the queue emptied right after '
+                'every refused message (two phases) and PRNG-drawn (k, takes per line) pairs derived from the case; a bounded case = '
+                '(k, put mode, consumer schedule, tbq, terminator, line list)')
+ASSUMPTION_BOUNDED = ('bounded NMEAQueue: queue_step_b takes, per line, whether the final put would be accepted; the harness supplies '
+                      '"qsize() < maxsize right before the call" (queue.Queue\'s own capacity arithmetic and the consumer are the '
+                      'environment of the model, not part of it), so the theorems hold for every capacity and every consumer; a '
+                      'refused line is never offered again (a repeated last fragment is a stale fragment, outside the well-formed '
+                      'schedules)')
 
 
 def bounded_random_params(lines, term, tbq, variant):
